@@ -36,6 +36,9 @@ def rule_settings_defaults(ctx, m):
     PSI = ('attr', ('var', 'self'), 'psi')
 
     def truth(c, case):
+        if c[0] == 'bin' and c[1] in ('isnot', 'notin', '!='):
+            pos = truth(('bin', {'isnot': 'is', 'notin': 'in', '!=': '=='}[c[1]], c[2], c[3]), case)
+            return None if pos is None else (not pos)
         t = fmt(c).replace('(', '').replace(')', '').replace('[', '').replace(']', '')
         if t.startswith('type') and t.endswith('is int'):
             return case == 'int'
@@ -209,14 +212,56 @@ def rule_inner_dist_table(ctx, m):
     ctx.count('inner-distance table entries', len(enc) + len(dec) + len(kinds))
 
 
+def ckwargs_entries(f):
+    """(key, value with the locals of c_kwargs resolved, line) for every entry of the dictionary c_kwargs returns"""
+    from ..symexec import Exec, Env
+    ex = Exec()
+    ex.run(f.body, Env())
+    out = []
+    for path, val, st in ex.returns:
+        if val is not None and val[0] == 'dict':
+            for k, v in val[1]:
+                if k is not None and k[0] == 'str':
+                    out.append((k[1], v, st.line))
+    return out
+
+
+def _leaf_when(e, truth):
+    """Leaf of a tree of conditional expressions with the tests decided by truth(atom) -> True / False / None (three-valued and/or/not)."""
+    def ev(c):
+        t = truth(c)
+        if t is not None:
+            return t
+        if c[0] == 'un' and c[1] == 'not':
+            v = ev(c[2])
+            return None if v is None else (not v)
+        if c[0] == 'bin' and c[1] in ('and', 'or'):
+            a, b = ev(c[2]), ev(c[3])
+            if c[1] == 'or':
+                if a is True or b is True:
+                    return True
+                return False if (a is False and b is False) else None
+            if a is False or b is False:
+                return False
+            return True if (a is True and b is True) else None
+        return None
+    while e is not None and e[0] == 'cond':
+        v = ev(e[1])
+        if v is None:
+            return None
+        e = e[2] if v else e[3]
+    return e
+
+
 def rule_none_zero_encoding(ctx, m):
     """'option off' is None in Python and 0 in C: every producer maps None -> 0 and the C kernels treat 0 as off."""
     pm, f = _func(m, 'dtaidistance.dtw', 'DTWSettings.c_kwargs')
-    for s in f.body:
-        if s.k == 'assign' and s.target[0] == 'var' and s.value[0] == 'cond':
-            c = s.value
-            ok = c[2] == ('num', 0) and any(x == ('none',) for x in walk_expr(c[1]))
-            ctx.check(ok, 'R-TAB', pm.path, 'DTWSettings.c_kwargs', 'None -> 0 for %s' % s.target[1], 'an unset option must be encoded as 0 for the C engine', s.line)
+    # decided on the returned dictionary with the locals resolved: an entry that depends on `self.K is None` must be 0 when K is None
+    for key, val, line in ckwargs_entries(f):
+        nones = {x[2] for x in walk_expr(val) if x[0] == 'bin' and x[1] in ('is', 'isnot') and x[3] == ('none',) and x[2][0] == 'attr' and x[2][1] == ('var', 'self')}
+        for at in sorted(nones, key=repr):
+            leaf = _leaf_when(val, lambda c, at=at: True if c == ('bin', 'is', at, ('none',)) else (False if c == ('bin', 'isnot', at, ('none',)) else None))
+            ctx.check(leaf == ('num', 0), 'R-TAB', pm.path, 'DTWSettings.c_kwargs', 'None -> 0 for %s' % key, 'an unset option must be encoded as 0 for the C engine; found %s' % (fmt(leaf) if leaf is not None else 'an undecided value'), line)
     pm, g = _func(m, 'dtaidistance.dtw', 'distance_matrix')
     ok = False
     for s in walk_stmts(g.body):
